@@ -68,6 +68,19 @@ def strategy(tier):
     return case_strategy(tier)
 
 
+def enumerated(tier, seed):
+    """delta loader whose pure split of the target has weight exactly 0.0 (first-topology probability 0, or its power
+    underflowing) while other splits carry the target's mass; the lower end of each range has an admissible split of
+    positive weight too (the check also probes the loader with the target placed there)"""
+    out = []
+    for i, (probs, rng_, target) in enumerate([([0.0, 1.0], [2, 9], 4), ([0.0, 0.5, 0.5], [2, 8], 5), ([0.0, 0.5, 0.5], [2, 9], 2),
+                                               ([0.01, 0.99], [196, 204], 200), ([0.0, 1.0], [4, 7], 6)]):
+        for path in ("class", "dispatch_str"):
+            out.append({"loader": "delta", "path": path, "probs": probs, "range": rng_, "fp": {"kind": "table", "seed": seed + i},
+                        "sizes": "consecutive", "target": target})
+    return out
+
+
 def splits(k, T):
     """all (j_1..j_T) with sum_t t*j_t = k (own recursion, highest topology first)."""
     def rec(rem, t):
